@@ -7,10 +7,16 @@
 // input (fields separated by one space, all numbers hex):
 //   handle <n> <setid> <msgsetid> <round> <has> <hf> <badstart|-> <base> <parents|-> <tblk> <tnum> <drop> <entries|->
 //   verify <thr> <n> <setid> <msgsetid> <round> <hf> <badstart|-> <base> <parents|-> <tblk> <tnum> <drop> <entries|->
-//     n         number of authorities (keys 0..n-1 of a fixed universe of 16 real keys)
+//     n         number of authorities (keys 0..n-1 of a fixed universe of 16 real keys), optionally followed by
+//               `:k1,k2,..`: keys appended to the Service's voter list again (a voter list with repeats:
+//               State.threshold counts list entries, authorityKeySet is a set)
 //     setid     the service's authority-set id; msgsetid the SetID field of the commit message
-//     has       HasFinalisedBlock(round, setid) answer (0/1);  hf = block label of the highest finalised header
-//     badstart  block label for which IsDescendantOf(parent=that block, other) fails with ErrStartNodeNotFound
+//     has       bit mask: 1 HasFinalisedBlock(round, setid) answers true | 2 HasFinalisedBlock fails
+//               | 4 GetHighestFinalisedHeader fails | 8 SetFinalisedHash fails | 10 SetPrecommits fails
+//     hf        block label of the highest finalised header
+//     badstart  <b|->[/<h>]: b = block label for which IsDescendantOf(parent=that block, other) fails with
+//               ErrStartNodeNotFound; h = block label whose header GetHeader does not find although
+//               IsDescendantOf knows the block
 //     base      number of block 0;  parents = p1,p2,.. : block i has parent p_i (< i); labels >= 0x64 are unknown blocks
 //     tblk,tnum the commit's target block label and claimed number
 //     drop      number of AuthData entries removed from the end (length mismatch when > 0)
@@ -20,8 +26,10 @@
 //              k signed by key+1 | z all-zero signature
 // observables:
 //   handle -> <res> <SetFinalisedHash calls> <blk:round:setid of the last call|-> <SetPrecommits calls> <tracked commits> <e1,e2,..|->
-//   verify -> <res> 0 - 0 0 <e1,..|->
-//     res: ok | tnohdr | tnum | len | setid | descstart | descother | notdesc | nohdr | pcnum | minvotes | other
+//             <round:setid of the HasFinalisedBlock calls|-> <round:setid:len of the SetPrecommits calls|->
+//   verify -> <res> 0 - 0 0 <e1,..|-> - -
+//     res: ok | tnohdr | tnum | len | setid | descstart | descother | notdesc | nohdr | pcnum | minvotes
+//          | haserr | hferr | finerr | storeerr | other
 //     e_i:  <ed25519 verdict 0/1>:<first 8 bytes of the signature>   (the verdict is recorded by an
 //           independent crypto/ed25519 verification of the entry's signature for (precommit, vote_i, round, setid))
 package grandpa
@@ -82,8 +90,11 @@ type c18Chain struct {
 	hf         int
 	has        bool
 	badstart   int
+	nohdr      int
+	flags      uint64
 	finCalls   int
 	finLast    string
+	hasArgs    []string
 }
 
 func c18UnknownHash(label int) common.Hash {
@@ -95,7 +106,7 @@ func c18UnknownHash(label int) common.Hash {
 }
 
 func c18NewChain(base uint, parents []int) *c18Chain {
-	c := &c18Chain{idx: map[common.Hash]int{}, badstart: -1}
+	c := &c18Chain{idx: map[common.Hash]int{}, badstart: -1, nohdr: -1}
 	for i := 0; i <= len(parents); i++ {
 		var ph common.Hash
 		num := base
@@ -134,15 +145,26 @@ func (c *c18Chain) labelOf(h common.Hash) string {
 }
 
 func (c *c18Chain) GetHeader(h common.Hash) (*types.Header, error) {
-	if i, ok := c.idx[h]; ok {
+	if i, ok := c.idx[h]; ok && i != c.nohdr {
 		return c.headers[i], nil
 	}
 	return nil, fmt.Errorf("fake block state: %w", database.ErrNotFound)
 }
 
-func (c *c18Chain) HasFinalisedBlock(_, _ uint64) (bool, error) { return c.has, nil }
+func (c *c18Chain) HasFinalisedBlock(round, setID uint64) (bool, error) {
+	c.hasArgs = append(c.hasArgs, vu.X(round)+":"+vu.X(setID))
+	if c.flags&2 != 0 {
+		return false, errors.New("fake block state: HasFinalisedBlock fails")
+	}
+	return c.has, nil
+}
 
-func (c *c18Chain) GetHighestFinalisedHeader() (*types.Header, error) { return c.headers[c.hf], nil }
+func (c *c18Chain) GetHighestFinalisedHeader() (*types.Header, error) {
+	if c.flags&4 != 0 {
+		return nil, errors.New("fake block state: GetHighestFinalisedHeader fails")
+	}
+	return c.headers[c.hf], nil
+}
 
 func (c *c18Chain) IsDescendantOf(parent, child common.Hash) (bool, error) {
 	if parent == child {
@@ -168,16 +190,25 @@ func (c *c18Chain) IsDescendantOf(parent, child common.Hash) (bool, error) {
 func (c *c18Chain) SetFinalisedHash(h common.Hash, round, setID uint64) error {
 	c.finCalls++
 	c.finLast = c.labelOf(h) + ":" + vu.X(round) + ":" + vu.X(setID)
+	if c.flags&8 != 0 {
+		return errors.New("fake block state: SetFinalisedHash fails")
+	}
 	return nil
 }
 
 type c18GrandpaState struct {
 	GrandpaState
 	stored int
+	args   []string
+	fail   bool
 }
 
-func (g *c18GrandpaState) SetPrecommits(_, _ uint64, _ []SignedVote) error {
+func (g *c18GrandpaState) SetPrecommits(round, setID uint64, pcs []SignedVote) error {
 	g.stored++
+	g.args = append(g.args, vu.X(round)+":"+vu.X(setID)+":"+vu.X(uint64(len(pcs))))
+	if g.fail {
+		return errors.New("fake grandpa state: SetPrecommits fails")
+	}
 	return nil
 }
 
@@ -198,9 +229,11 @@ type c18Case struct {
 	op                         string
 	thr                        uint64
 	n                          int
+	extra                      []int
 	setID, msgSetID, round     uint64
 	has                        bool
-	hf, badstart               int
+	flags                      uint64
+	hf, badstart, nohdr        int
 	base                       uint
 	parents                    []int
 	tblk                       int
@@ -231,19 +264,30 @@ func c18Parse(in string) (c c18Case, ok bool) {
 		c.thr = vu.UnX(f[1])
 		i = 2
 	}
-	c.n = int(vu.UnX(f[i]))
+	if k := strings.IndexByte(f[i], ':'); k >= 0 {
+		c.n = int(vu.UnX(f[i][:k]))
+		c.extra = c18ParseInts(f[i][k+1:])
+	} else {
+		c.n = int(vu.UnX(f[i]))
+	}
 	c.setID = vu.UnX(f[i+1])
 	c.msgSetID = vu.UnX(f[i+2])
 	c.round = vu.UnX(f[i+3])
 	i += 4
 	if c.op == "handle" {
-		c.has = f[i] == "1"
+		c.flags = vu.UnX(f[i])
+		c.has = c.flags&1 != 0
 		i++
 	}
 	c.hf = int(vu.UnX(f[i]))
-	c.badstart = -1
-	if f[i+1] != "-" {
-		c.badstart = int(vu.UnX(f[i+1]))
+	c.badstart, c.nohdr = -1, -1
+	bs := f[i+1]
+	if k := strings.IndexByte(bs, '/'); k >= 0 {
+		c.nohdr = int(vu.UnX(bs[k+1:]))
+		bs = bs[:k]
+	}
+	if bs != "-" {
+		c.badstart = int(vu.UnX(bs))
 	}
 	c.base = uint(vu.UnX(f[i+2]))
 	c.parents = c18ParseInts(f[i+3])
@@ -265,7 +309,7 @@ func c18Parse(in string) (c c18Case, ok bool) {
 			return c, false
 		}
 	}
-	if c.hf < 0 || c.hf > len(c.parents) || c.n > c18Universe {
+	if c.hf < 0 || c.hf > len(c.parents) || c.n > c18Universe || len(c.extra) > 8 {
 		return c, false
 	}
 	return c, true
@@ -318,6 +362,14 @@ func c18Class(op string, err error) string {
 	}
 	s := err.Error()
 	switch {
+	case strings.HasPrefix(s, "checking for a finalized block in the block state"):
+		return "haserr"
+	case strings.Contains(s, "getting highest finalised header"):
+		return "hferr"
+	case strings.HasPrefix(s, "setting finalised hash"):
+		return "finerr"
+	case strings.HasPrefix(s, "setting precommits"):
+		return "storeerr"
 	case errors.Is(err, ErrBlockHashMismatch):
 		return "tnum"
 	case op == "handle" && strings.HasPrefix(s, "verifying block hash against block number"):
@@ -351,10 +403,15 @@ func c18Run(in string) string {
 	chain.hf = c.hf
 	chain.has = c.has
 	chain.badstart = c.badstart
+	chain.nohdr = c.nohdr
+	chain.flags = c.flags
 
 	voters := make([]Voter, c.n)
 	for i := 0; i < c.n; i++ {
 		voters[i] = Voter{Key: *c18Key(i).Public().(*ed25519.PublicKey), ID: uint64(i)}
+	}
+	for j, k := range c.extra {
+		voters = append(voters, Voter{Key: *c18Key(k).Public().(*ed25519.PublicKey), ID: uint64(c.n + j)})
 	}
 
 	msg := &CommitMessage{Round: c.round, SetID: c.msgSetID,
@@ -385,7 +442,7 @@ func c18Run(in string) string {
 		eb = strings.Join(bits, ",")
 	}
 
-	gs := &c18GrandpaState{}
+	gs := &c18GrandpaState{fail: c.flags&0x10 != 0}
 	svc := &Service{
 		blockState:   chain,
 		grandpaState: gs,
@@ -395,15 +452,22 @@ func c18Run(in string) string {
 	}
 	if c.op == "verify" {
 		err := verifyCommitMessageJustification(*msg, c.setID, c.thr, svc.authorityKeySet(), chain)
-		return fmt.Sprintf("%s 0 - 0 0 %s", c18Class(c.op, err), eb)
+		return fmt.Sprintf("%s 0 - 0 0 %s - -", c18Class(c.op, err), eb)
 	}
 	err := svc.handleCommitMessage(msg)
 	last := "-"
 	if chain.finCalls > 0 {
 		last = chain.finLast
 	}
-	return fmt.Sprintf("%s %s %s %s %s %s", c18Class(c.op, err), vu.X(uint64(chain.finCalls)), last,
-		vu.X(uint64(gs.stored)), vu.X(uint64(svc.tracker.commits.linkedList.Len())), eb)
+	hasArgs, storeArgs := "-", "-"
+	if len(chain.hasArgs) > 0 {
+		hasArgs = strings.Join(chain.hasArgs, ",")
+	}
+	if len(gs.args) > 0 {
+		storeArgs = strings.Join(gs.args, ",")
+	}
+	return fmt.Sprintf("%s %s %s %s %s %s %s %s", c18Class(c.op, err), vu.X(uint64(chain.finCalls)), last,
+		vu.X(uint64(gs.stored)), vu.X(uint64(svc.tracker.commits.linkedList.Len())), eb, hasArgs, storeArgs)
 }
 
 // ---- generator ---------------------------------------------------------------------------
@@ -448,7 +512,14 @@ func (t c18Tree) isDesc(a, b int) bool {
 func c18GenCase(r *vu.RNG) string {
 	// authority set size: every size 0..9, small ones more often
 	n := []int{0, 1, 2, 3, 3, 4, 4, 4, 5, 6, 6, 7, 7, 9}[r.Intn(14)]
-	thr := 2 * n / 3
+	// a voter list that repeats some keys: threshold() counts the entries, the key set does not
+	var extra []int
+	if n > 0 && r.Chance(1, 8) {
+		for k := 1 + r.Intn(2); k > 0; k-- {
+			extra = append(extra, r.Intn(n))
+		}
+	}
+	thr := 2 * (n + len(extra)) / 3
 	t := c18Tree{base: r.Intn(3)}
 	m := 1 + r.Intn(8)
 	for i := 1; i < m; i++ {
@@ -479,10 +550,19 @@ func c18GenCase(r *vu.RNG) string {
 		msgSetID = setID + 1
 	}
 	round := uint64(1 + r.Intn(5))
-	has := r.Chance(1, 40)
+	flags := uint64(0)
+	if r.Chance(1, 40) {
+		flags |= 1
+	}
+	if r.Chance(1, 12) { // one failing collaborator
+		flags |= []uint64{2, 4, 8, 8, 0x10, 0x10}[r.Intn(6)]
+	}
 	badstart := "-"
 	if r.Chance(1, 40) {
 		badstart = vu.X(uint64(r.Intn(m)))
+	}
+	if r.Chance(1, 30) { // a block whose header GetHeader does not find
+		badstart += "/" + vu.X(uint64(r.Intn(m)))
 	}
 	drop := 0
 	if r.Chance(1, 50) {
@@ -580,6 +660,11 @@ func c18GenCase(r *vu.RNG) string {
 				b = 0x64 + r.Intn(2)
 			}
 			es = append(es, mk(restKey, b, "v"))
+			if b >= m && r.Chance(1, 2) { // the same unknown block again with another number: an equivocation
+				e := mk(restKey, b, "v")
+				e.num = uint32(1 + r.Intn(2))
+				es = append(es, e)
+			}
 		case 4: // wrong round / set / stage / number / key / zero
 			es = append(es, mk(restKey, pick(on, tblk), []string{"r", "s", "p", "o", "k", "z"}[r.Intn(6)]))
 		case 5: // non-authorities with valid signatures
@@ -609,7 +694,10 @@ func c18GenCase(r *vu.RNG) string {
 		}
 		ent = strings.Join(ss, ",")
 	}
-	b2s := map[bool]string{false: "0", true: "1"}
+	ns := vu.X(uint64(n))
+	if len(extra) > 0 {
+		ns += ":" + c18Join(extra)
+	}
 	tail := fmt.Sprintf("%s %s %s %s %s %s %s %s", vu.X(uint64(hf)), badstart, vu.X(uint64(t.base)),
 		c18Join(t.parents), vu.X(uint64(tblk)), vu.X(uint64(tnum)), vu.X(uint64(drop)), ent)
 	if r.Chance(1, 5) {
@@ -618,16 +706,74 @@ func c18GenCase(r *vu.RNG) string {
 		case 0:
 			vthr = thr + 1
 		case 1:
-			vthr = r.Intn(n + 2)
+			vthr = r.Intn(n + len(extra) + 2)
 		}
-		return fmt.Sprintf("verify %s %s %s %s %s %s", vu.X(uint64(vthr)), vu.X(uint64(n)), vu.X(setID),
+		return fmt.Sprintf("verify %s %s %s %s %s %s", vu.X(uint64(vthr)), ns, vu.X(setID),
 			vu.X(msgSetID), vu.X(round), tail)
 	}
-	return fmt.Sprintf("handle %s %s %s %s %s %s", vu.X(uint64(n)), vu.X(setID), vu.X(msgSetID), vu.X(round),
-		b2s[has], tail)
+	return fmt.Sprintf("handle %s %s %s %s %s %s", ns, vu.X(setID), vu.X(msgSetID), vu.X(round),
+		vu.X(flags), tail)
+}
+
+// c18Exhaustive (thorough tier): EVERY vector of entries up to a length over a small alphabet, on the
+// fixed tree 0 <- 1 <- 2, 0 <- 3 with target block 1:
+//   n = 1, 2, 3: keys 0..n (n is a non-authority) x blocks {1 target, 2 descendant, 3 off-chain, 0x64 unknown}
+//                x kinds {valid, forged}, all vectors of length 0..3;
+//   n = 4:       keys 0..3 x blocks {1, 3} x valid, plus keys 0..3 forged on the target, all vectors of length 3 and 4.
+// Forged entries get their position as variant, so two forged entries of one key differ in their signature bytes.
+func c18Exhaustive(emit func(string)) {
+	type sym struct {
+		key, blk int
+		kind     string
+	}
+	num := map[int]int{0: 0, 1: 1, 2: 2, 3: 1, 0x64: 0}
+	run := func(n int, alpha []sym, lens []int) {
+		var vec []sym
+		var rec func(left int)
+		rec = func(left int) {
+			if left == 0 {
+				ent := "-"
+				if len(vec) > 0 {
+					ss := make([]string, len(vec))
+					for i, e := range vec {
+						ss[i] = fmt.Sprintf("%s.%s.%s.%s.%s", vu.X(uint64(e.key)), vu.X(uint64(e.blk)),
+							vu.X(uint64(num[e.blk])), e.kind, vu.X(uint64(i)))
+					}
+					ent = strings.Join(ss, ",")
+				}
+				emit(fmt.Sprintf("handle %s 0 0 1 0 0 - 0 0,1,0 1 1 0 %s", vu.X(uint64(n)), ent))
+				return
+			}
+			for _, a := range alpha {
+				vec = append(vec, a)
+				rec(left - 1)
+				vec = vec[:len(vec)-1]
+			}
+		}
+		for _, l := range lens {
+			rec(l)
+		}
+	}
+	for n := 1; n <= 3; n++ {
+		var alpha []sym
+		for k := 0; k <= n; k++ {
+			for _, b := range []int{1, 2, 3, 0x64} {
+				alpha = append(alpha, sym{k, b, "v"}, sym{k, b, "f"})
+			}
+		}
+		run(n, alpha, []int{0, 1, 2, 3})
+	}
+	var alpha []sym
+	for k := 0; k < 4; k++ {
+		alpha = append(alpha, sym{k, 1, "v"}, sym{k, 3, "v"}, sym{k, 1, "f"})
+	}
+	run(4, alpha, []int{3, 4})
 }
 
 func c18Gen(r *vu.RNG, n int, emit func(string)) {
+	if vu.Thorough() {
+		c18Exhaustive(emit)
+	}
 	for i := 0; i < n; i++ {
 		emit(c18GenCase(r))
 	}
